@@ -166,11 +166,12 @@ func simConfig(s *scn.Scenario) zzsim.Config {
 		Mode: s.Sched.Mode, Seed: s.Sched.Seed, Mean: s.Sched.Mean, PCTDepth: s.Sched.Depth, Horizon: s.Sched.Horizon,
 		Replay: s.Sched.Replay, Tape: s.Sched.Tape, Pipe: s.Sched.Pipe,
 		FaultSeed: s.Faults.Seed, FaultReplay: s.Faults.Replay, FaultTape: s.Faults.Tape, GCSteps: s.Faults.GCSteps,
+		Clock: usesClock, ClockTick: s.Sched.ClockTick, ClockJumps: s.Faults.ClockJumps,
 	}
 }
 
 func refConfig(s *scn.Scenario) zzsim.Config {
-	return zzsim.Config{Mode: zzsim.ModeRTC, Seed: 1, Pipe: s.Sched.Pipe, FaultSeed: 1}
+	return zzsim.Config{Mode: zzsim.ModeRTC, Seed: 1, Pipe: s.Sched.Pipe, FaultSeed: 1, Clock: usesClock, ClockTick: s.Sched.ClockTick}
 }
 
 func runC11(s *scn.Scenario, res *scn.Result) {
